@@ -13,6 +13,7 @@ Part D  discretization: every ordered tuple of 1..4 raw taps at multiples of
 Part T  transmissions.  One *scenario* = channel configuration + a history of
         operations on ONE channel object.  Families:
           time   every profile x antennas x direction x generator x input
+                 (thorough: additionally every ordered pair of raw taps)
           freq   every fft x selection (None / index arrays / all slices) x
                  blocks x antennas x direction x generator x profile
           hist   every sequence (<= 3) over a step alphabet mixing time and
@@ -24,6 +25,9 @@ Part T  transmissions.  One *scenario* = channel configuration + a history of
           forms  1-D input for a single transmit antenna / transmitter, list
                  input, profile passed as object / discretized object
           longm  channel memory >= fft_size
+        Defects of the library that stop a scenario (a valid request raising) are
+        reported under their own precise signature and the scenario is counted
+        as cut short; everything else an exception is a violation via chk.guard.
 Oracle  gather-form nested loops
           y[o][m] = sum_d sum_a h[d][o][a][m-d] x[a][m-d]
         with h the taps of get_last_impulse_response() queried after the
@@ -595,11 +599,17 @@ def transmit(sut, step, chk, case, results):
                 tol = (1e-9 + 2 * math.pi * sut.Fd * sut.Ts * 4e-10 * (sut.counter + 2)) \
                     * max(1.0, float(np.max(np.abs(want))))
                 if vals.shape != want.shape or float(np.max(np.abs(vals - want))) > tol:
-                    chk.fail(("fading_time_advance", "time" if op == "time" else "freq",
-                              "reported_taps!=sqrt(P)*jakes(sample_counter)"), case,
+                    what = "sample_time"
+                    if vals.shape == want.shape:
+                        # a wrong constant factor (tap power / path loss) or a wrong fading time?
+                        alpha = complex(np.vdot(want, vals) / max(float(np.vdot(want, want).real), 1e-300))
+                        if float(np.max(np.abs(vals - alpha * want))) <= tol * max(1.0, abs(alpha)):
+                            what = "constant_factor"
+                    chk.fail(("reported_response", "jakes_reference", what, op), case,
                              observed=float(np.max(np.abs(vals - want))) if vals.shape == want.shape else vals.shape,
                              expected="<= %.3g" % tol,
-                             msg="sample counter model: N per time-domain transmission, fft_size per block")
+                             msg="reported taps vs sqrt(P_tap [* pathloss]) * Jakes formula at the model's sample "
+                                 "counter (N samples per time-domain transmission, fft_size per block)")
     xmax = float(np.max(np.abs(X))) if X.size else 0.0
     terms = len(sut.ref_idx) * ui * ai + 2
     tol = C_TOL * numerics.EPS * terms * max(hmax, 1e-300) * max(xmax, 1e-300)
